@@ -98,6 +98,11 @@ func TokenType(s string) schema.TokenType {
 		return schema.TokenTypeArray
 	case "null":
 		return schema.TokenTypeNull
+	case "enum":
+		// JSight example: // {or: [ {type: "enum", enum: [1, "a"]}, ... ]}
+		// The element has no example value to take the token type from; any
+		// primitive one will do, the OpenAPI type of an enum is not emitted.
+		return schema.TokenTypeString
 	default:
 		panic(errs.ErrRuntimeFailure.F())
 	}
